@@ -78,7 +78,10 @@ def _ctor_only(ix, f):
         for n in _ast.walk(g.node):
             if isinstance(n, _ast.Call) and isinstance(n.func, _ast.Attribute) and n.func.attr == f.name:
                 sites.append(g)
-    return bool(sites) and all(g.name == '__init__' for g in sites)
+    # constructors of the SAME object: a method of a shared object (a singleton cache) called from the constructor of
+    # something else lives across many constructions
+    fam = set(ix.mro(f.cls)) | set(ix.subclasses(f.cls))
+    return bool(sites) and all(g.name == '__init__' and g.cls in fam for g in sites)
 
 
 def _licensed_through_callers(ix, f, attr, depth=0):
@@ -275,6 +278,91 @@ def _invalidation_sites(ix, f, attr):
     return sorted(set(out))
 
 
+def _unreset_state_deps(ix, f, attr):
+    """[(self attribute the memoised value is computed from, method that changes it without resetting the memo)].
+    A memo that is reset by some methods is only sound if EVERY method that changes something the memoised value was
+    computed from resets it (or calls a method that does).  Decided on the class's own methods: the value's
+    dependencies are the self attributes read by the statements that feed the store into `attr`; their writers are the
+    methods that assign them or mutate them in place."""
+    import ast as _ast
+    from sa.algebra import dotted
+    from sa.effects import attr_writes
+    if f.cls is None:
+        return []
+    # locals / attributes that flow into the stored value
+    deps = set()
+    carry = {}
+    for n in _ast.walk(f.node):
+        if isinstance(n, _ast.Assign) and len(n.targets) == 1 and isinstance(n.targets[0], _ast.Name):
+            carry.setdefault(n.targets[0].id, []).append(n.value)
+        if isinstance(n, _ast.For):
+            for x in _ast.walk(n.target):
+                if isinstance(x, _ast.Name):
+                    carry.setdefault(x.id, []).append(n.iter)
+        if isinstance(n, _ast.Expr) and isinstance(n.value, _ast.Call) and isinstance(n.value.func, _ast.Attribute) and \
+                isinstance(n.value.func.value, _ast.Name) and n.value.func.attr in ('append', 'extend', 'update', 'add'):
+            carry.setdefault(n.value.func.value.id, []).extend(n.value.args)
+
+    def collect(expr, seen):
+        for x in _ast.walk(expr):
+            if isinstance(x, _ast.Attribute) and isinstance(x.value, _ast.Name) and x.value.id in ('self', 'cls'):
+                d = 'self.' + x.attr
+                if d != attr:
+                    deps.add(d)
+            if isinstance(x, _ast.Name) and x.id in carry and x.id not in seen:
+                seen.add(x.id)
+                for v in carry[x.id]:
+                    collect(v, seen)
+    for n in _ast.walk(f.node):
+        if isinstance(n, _ast.Assign) and any(dotted(t) == attr for t in n.targets):
+            collect(n.value, set())
+    # only attributes that are data of the object (assigned somewhere in the class), not methods / properties
+    meths = {}
+    for c in ix.mro(f.cls):
+        for name, lst in c.methods.items():
+            meths.setdefault(name, lst[0])
+    deps = {d for d in deps if d.split('.')[1] not in meths}
+    if not deps:
+        return []
+
+    def mutates(g, d):
+        if d in attr_writes(g):
+            return True
+        for n in _ast.walk(g.node):
+            if isinstance(n, (_ast.Assign, _ast.AugAssign, _ast.Delete)):
+                tg = n.targets if isinstance(n, (_ast.Assign, _ast.Delete)) else [n.target]
+                for t in tg:
+                    b = t
+                    while isinstance(b, _ast.Subscript):
+                        b = b.value
+                    if b is not t and dotted(b) == d:
+                        return True
+            if isinstance(n, _ast.Call) and isinstance(n.func, _ast.Attribute) and dotted(n.func.value) == d and \
+                    n.func.attr in ('append', 'extend', 'insert', 'update', 'pop', 'remove', 'clear', 'add', 'setdefault', 'sort'):
+                return True
+        return False
+
+    def resets(g, depth=0):
+        if attr in attr_writes(g):
+            return True
+        if depth > 2:
+            return False
+        for n in _ast.walk(g.node):
+            if isinstance(n, _ast.Call) and isinstance(n.func, _ast.Attribute) and isinstance(n.func.value, _ast.Name) and \
+                    n.func.value.id == 'self' and n.func.attr in meths and meths[n.func.attr] is not g:
+                if resets(meths[n.func.attr], depth + 1):
+                    return True
+        return False
+    out = []
+    for name, g in sorted(meths.items()):
+        if g is f or name == '__init__':
+            continue
+        for d in sorted(deps):
+            if mutates(g, d) and not resets(g):
+                out.append((d, g.qualname))
+    return out
+
+
 def _module_memos(ix, f):
     """{name: condition text} of module-level containers ({} / [] / dict() / set() at module scope) that f both tests
     (`key in G`, `G.get(key)`) and fills (`G[key] = v`, G.update / setdefault / append / add), and that no other
@@ -366,6 +454,11 @@ def memo_obligation(ix, R, oid, relpaths, what, skip=('__init__', 'init')):
                         if weak:
                             bad.append((f, attr, '%s (the memo depends on the argument%s %s and is reused whenever %s)' % (
                                 cond, 's' if len(weak[0]) > 1 else '', ', '.join(sorted(weak[0])), weak[1])))
+                            continue
+                        stale = _unreset_state_deps(ix, f, attr)
+                        if stale:
+                            bad.append((f, attr, '%s (the memoised value is computed from %s, which %s changes without '
+                                        'resetting the memo)' % (cond, stale[0][0], stale[0][1])))
                             continue
                         invalidated.append('%s %s (reset in %s)' % (f.qualname, attr, ', '.join(inv)))
                         continue
@@ -569,3 +662,30 @@ def prepare_each_state(ix, R, oid):
                 detail='%s.contribute() reads self.%s, which only prepare() sets; model_full_contrib() calls prepare_each() '
                        'directly and then integrates, so the value of an earlier evaluation (another grid) is used' % (
                            con.cls.name if con.cls else '?', ', self.'.join(missing)), loc=f.loc())
+
+
+def gas_lookup_path(ix, R, oid):
+    """Every per-gas look-up (`get_gas_mix_profile`) reads the mixture through activeGasMixProfile / inactiveGasMixProfile -
+    the two properties a mixin (MakeFreeMixin) or a subclass overrides to substitute / renormalise gases.  An
+    implementation that indexes the raw `mixProfile` bypasses those overrides: absorption, CIA, Rayleigh and H- would weight
+    a gas by an abundance that is not the one the model uses."""
+    import ast
+    base = ix.find_class('Chemistry')
+    impls = ix.implementations(base, 'get_gas_mix_profile')
+    n = 0
+    for f in impls:
+        n += 1
+        reads = {x.attr for x in ast.walk(f.node) if isinstance(x, ast.Attribute) and isinstance(x.value, ast.Name) and
+                 x.value.id == 'self' and isinstance(x.ctx, ast.Load)}
+        raw = sorted(reads & {'mixProfile', '_mix_profile', 'mix_profile'})
+        via = reads & {'activeGasMixProfile', 'inactiveGasMixProfile'}
+        sup = any(isinstance(x, ast.Call) and isinstance(x.func, ast.Attribute) and x.func.attr == 'get_gas_mix_profile' and
+                  isinstance(x.func.value, ast.Call) and getattr(x.func.value.func, 'id', '') == 'super' for x in ast.walk(f.node))
+        R.check(oid, 'SIB', f.site,
+                'get_gas_mix_profile reads the mixture through activeGasMixProfile / inactiveGasMixProfile (what mixins override)',
+                not raw and (bool(via) or sup), key='reads self.%s' % (raw or sorted(reads))[:60],
+                detail='%s reads self.%s directly: a chemistry enhanced with the makefree mixin (which overrides the active / '
+                       'inactive profiles) is looked up in the un-substituted, un-renormalised profile' % (
+                           f.qualname, ', self.'.join(raw) or '?'), loc=f.loc())
+    if n < 1:
+        R.error(oid, 'SIB', 'taurex/data/profiles/chemistry/', 'get_gas_mix_profile implementations are found', 'found none')
